@@ -2422,7 +2422,219 @@ def check_c10(ctx):
     return rep.finish()
 
 
+# ------------------------------------------------------------------------------ C11 determinism, front ends, exclusion
+def build_pdlc():
+    t = time.time()
+    sh(["cargo", "build", "--offline", "-q", "--manifest-path", os.path.join(REPO, "Cargo.toml"), "-p", "pdl-compiler",
+        "--bin", "pdlc", "--target-dir", os.path.join(WORK, "target-pdlc")], timeout=1800)
+    log("pdlc built in %.1fs" % (time.time() - t))
+    return os.path.join(WORK, "target-pdlc", "debug", "pdlc")
+
+
+def sha(s):
+    return hashlib.sha256(s.encode() if isinstance(s, str) else s).hexdigest()[:20]
+
+
+def build_derive_harness(units):
+    """the same registry as build_rust_harness, but every module is produced by #[pdl_inline]"""
+    root = os.path.join(WORK, "rustderive")
+    os.makedirs(os.path.join(root, ".cargo"), exist_ok=True)
+    write_if_changed(os.path.join(root, ".cargo", "config.toml"),
+                     "[net]\noffline = true\n[build]\ntarget-dir = \"%s\"\n" % os.path.join(WORK, "target-rustderive"))
+    if not os.path.exists(os.path.join(root, "Cargo.lock")):
+        shutil.copy(os.path.join(REPO, "Cargo.lock"), os.path.join(root, "Cargo.lock"))
+    n = max(1, min(8, len(units) // 10 + 1))
+    shards = ["d%02d" % i for i in range(n)]
+    write_if_changed(os.path.join(root, "Cargo.toml"),
+                     "[workspace]\nresolver = \"2\"\nmembers = [%s]\n\n[profile.dev]\nopt-level = 0\ndebug = 0\n"
+                     "overflow-checks = true\ndebug-assertions = true\nincremental = false\n" % ", ".join('"%s"' % x for x in shards))
+    for x in os.listdir(root):
+        if x.startswith("d") and x[1:].isdigit() and x not in shards:
+            shutil.rmtree(os.path.join(root, x), ignore_errors=True)
+    assign = {x: [] for x in shards}
+    for i, u in enumerate(units):
+        assign[shards[i % n]].append(u)
+    for x in shards:
+        sd = os.path.join(root, x)
+        os.makedirs(os.path.join(sd, "src"), exist_ok=True)
+        write_if_changed(os.path.join(sd, "Cargo.toml"),
+                         CARGO_SHARD % (x, os.path.join(VERIF, "harness", "rust_gen", "hcommon"))
+                         + 'pdl-derive = { path = "/repo/pdl-derive" }\n')
+        mods, regs = [], []
+        for u in assign[x]:
+            lit = json.dumps(u.src)      # a Rust string literal: JSON escapes are valid Rust escapes for this alphabet
+            mods.append("#[pdl_derive::pdl_inline(%s)]\nmod %s {}" % (lit, u.mod))
+            regs += registry_lines(u)
+        main = ("#![allow(warnings)]\n#[global_allocator]\nstatic A: hcommon::CapAlloc = hcommon::CapAlloc;\n"
+                + "\n".join(mods) + "\nfn main() {\n    let mut r = hcommon::Registry::new();\n"
+                + "\n".join(regs) + "\n    hcommon::serve(r);\n}\n")
+        write_if_changed(os.path.join(sd, "src", "main.rs"), main)
+    t = time.time()
+    p = sh(["cargo", "build", "--offline", "--message-format=short"], cwd=root, timeout=3600, check=False,
+           env={"RUSTFLAGS": "-Awarnings"})
+    log("derive harness build: rc=%d in %.1fs" % (p.returncode, time.time() - t))
+    if p.returncode != 0:
+        raise ToolError("derive harness build failed:\n" + p.stdout[-4000:])
+    tdir = os.path.join(WORK, "target-rustderive", "debug")
+    return {u.name: os.path.join(tdir, x) for x in shards for u in assign[x]}
+
+
+def check_c11(ctx):
+    rep = Report("C11", ctx.tier, ctx.seed)
+    rng = random.Random(ctx.seed + 4711)
+    quick = ctx.tier == "quick"
+    units = make_units(kit.build(ctx.tier))
+    K = 3 if quick else 12
+    reqs = [dict(rid=u.idx, name=u.desc["name"] + ".pdl", src=u.src, want=["analyze", "json", "rust", "python", "cxx"], repeat=K)
+            for u in units]
+    res = run_driver(ctx.driver(), reqs, tag="c11a")
+    for u in units:
+        u.resp = res.get(u.idx, {})
+        u.status = "accepted" if "ok" in u.resp.get("analyze", {}) else "rejected"
+    digests = {}        # key -> list of digests
+
+    def obs(key, text):
+        digests.setdefault(key, []).append(sha(text))
+
+    for u in units:
+        for b in ("json", "rust", "python", "cxx"):
+            g = u.resp.get(b, {})
+            if "ok" in g:
+                key = "inproc|%s|%s|%s.pdl" % (b, u.name, u.desc["name"])
+                obs(key, g["ok"])
+                if g.get("repeat_same") is False:
+                    obs(key, g["ok"] + "#differs-within-repeat")
+    # a second driver process (fresh hash seeds), and pdlc itself as separate processes
+    res2 = run_driver(ctx.driver(), reqs, tag="c11b")
+    for u in units:
+        for b in ("json", "rust", "python", "cxx"):
+            g = res2.get(u.idx, {}).get(b, {})
+            if "ok" in g:
+                obs("inproc|%s|%s|%s.pdl" % (b, u.name, u.desc["name"]), g["ok"])
+    pdlc = build_pdlc()
+    sample = [u for u in units if u.status == "accepted"]
+    rng.shuffle(sample)
+    sample = sample[:40 if quick else 400]
+    N = 3 if quick else 8
+    import concurrent.futures
+
+    def run_cli(args):
+        u, b, n = args
+        d = os.path.join(ctx.tmp, "cli", "%s_%d" % (u.mod, n))
+        os.makedirs(d, exist_ok=True)
+        fn = u.desc["name"] + ".pdl"
+        with open(os.path.join(d, fn), "w") as f:
+            f.write(u.src)
+        env = dict(os.environ, HOME=d, TMPDIR=d, LANG="C" if n % 2 else "en_US.UTF-8", PDL_RANDOM=str(n))
+        p = subprocess.run([pdlc, "--output-format", b, fn], cwd=d, stdout=subprocess.PIPE, stderr=subprocess.PIPE, env=env)
+        return (u, b, p.returncode, p.stdout)
+
+    work = [(u, b, n) for u in sample for b in ("json", "rust", "python", "cxx") for n in range(N)]
+    cli_text = {}
+    with concurrent.futures.ThreadPoolExecutor(NCPU) as ex:
+        for (u, b, rc, out) in ex.map(run_cli, work):
+            if rc == 0:
+                obs("cli|%s|%s|%s.pdl" % (b, u.name, u.desc["name"]), out)
+                cli_text[(u.name, b)] = out.decode("utf-8", "replace")
+    # CLI output == library output (same source, same file name, same options)
+    for (un, b), text in cli_text.items():
+        u = next(x for x in units if x.name == un)
+        lib = u.resp.get(b, {}).get("ok")
+        rep.validated()
+        if lib is not None and text.rstrip("\n") != lib.rstrip("\n"):
+            rep.violation("C11|cli_vs_library|%s|%s" % (b, un), {"desc": u.desc, "pdl": u.src, "backend": b,
+                                                                "observed": {"cli_sha": sha(text), "library_sha": sha(lib)}})
+    rows = [dict(key=k, digests=v) for k, v in sorted(digests.items())]
+    tr = os.path.join(ctx.tmp, "memo.ndjson")
+    write_ndjson(tr, rows)
+    lines, stats = tlc("Trace_Memo", "Trace_Memo.cfg", dict(TRACE=tr), tag="memo")
+    rep.tlc_stats(stats)
+    okk = {x["key"] for x in parse_tagged(lines, "ACCEPT")}
+    for row in rows:
+        rep.validated(len(row["digests"]))
+        if row["key"] not in okk:
+            kind, b, un, fn = row["key"].split("|")
+            u = next(x for x in units if x.name == un)
+            rep.violation("C11|nondeterministic|%s|%s|%s" % (kind, b, un),
+                          {"desc": u.desc, "pdl": u.src, "backend": b, "observed": {"digests": row["digests"]}})
+    rep.sample({"key": rows[0]["key"], "digests": rows[0]["digests"]})
+    # exclusion: excluding a leaf declaration changes nothing for the others
+    nex = 0
+    exreqs, exmeta = [], []
+    for u in units:
+        if u.status != "accepted" or u.desc["endian"] != "little":
+            continue
+        decls = u.desc["decls"]
+        ids = [x["id"] for x in decls]
+        for x in decls:
+            rid = x["id"]
+            referenced = any(y["parent"] == rid or any(f["type"] == rid for f in y["fields"]) for y in decls if y is not x)
+            if referenced or x["kind"] == "group" or len(decls) < 2:
+                continue
+            rest = json.loads(json.dumps(u.desc))
+            rest["decls"] = [y for y in rest["decls"] if y["id"] != rid]
+            a = dict(rid=len(exreqs), name=u.desc["name"] + ".pdl", src=u.src, want=["analyze", "rust", "python", "cxx"], exclude=[rid])
+            exreqs.append(a)
+            exmeta.append((u, rid, "excluded"))
+            b = dict(rid=len(exreqs), name=u.desc["name"] + ".pdl", src=pdl.render(rest), want=["analyze", "rust", "python", "cxx"])
+            exreqs.append(b)
+            exmeta.append((u, rid, "removed"))
+    exres = run_driver(ctx.driver(), exreqs, tag="c11x")
+    for i in range(0, len(exreqs), 2):
+        u, rid, _ = exmeta[i]
+        ra, rb = exres.get(i, {}), exres.get(i + 1, {})
+        for b in ("rust", "python", "cxx"):
+            ga, gb = ra.get(b, {}), rb.get(b, {})
+            if "ok" in ga and "ok" in gb:
+                rep.validated()
+                nex += 1
+                if ga["ok"] != gb["ok"]:
+                    rep.violation("C11|exclude_changes_others|%s|%s|%s" % (b, u.name, rid),
+                                  {"desc": u.desc, "pdl": u.src, "backend": b, "excluded": rid,
+                                   "observed": {"with_exclude_sha": sha(ga["ok"]), "source_without_decl_sha": sha(gb["ok"])}})
+            elif ("ok" in ga) != ("ok" in gb) and "ok" in ra.get("analyze", {}) and "ok" in rb.get("analyze", {}):
+                rep.violation("C11|exclude_changes_outcome|%s|%s|%s" % (b, u.name, rid),
+                              {"desc": u.desc, "pdl": u.src, "backend": b, "excluded": rid,
+                               "observed": {"with_exclude": json.dumps(ga)[:300], "source_without_decl": json.dumps(gb)[:300]}})
+    rep.notes["exclusion_comparisons"] = nex
+    # front ends: #[pdl_inline] modules must behave event-for-event like the CLI-generated modules
+    fe = [u for u in units if u.status == "accepted" and "ok" in u.resp.get("rust", {})]
+    jobs = [dict(d=k + 1, type="", anc="", mode="info", n=0) for k, u in enumerate(units)]
+    _, info = run_jobs(ctx, units, jobs, rep, tag="c11info")
+    fe = [u for u in fe if info.get(u.name, {}).get("rust")]
+    rng.shuffle(fe)
+    fe = fe[:40 if quick else 200]
+    for u in units:
+        u.status = "accepted" if u in fe else "skip"
+    bins_cli = build_rust_harness(units)
+    bins_der = build_derive_harness(fe)
+    pos = {u.name: k + 1 for k, u in enumerate(units)}
+    jobs = []
+    for u in fe:
+        for t in u.types():
+            for m in ("enc", "dec", "bad"):
+                jobs.append(dict(d=pos[u.name], type=t, anc="", mode=m, n=0))
+    vecs, _ = run_jobs(ctx, units, jobs, rep, tag="c11vec")
+    rq = rust_requests(vecs)
+    oa = run_rust(bins_cli, rq, tag="fea")
+    ob = run_rust(bins_der, rq, tag="feb")
+    for v in vecs:
+        a, b = oa.get(v["rid"], {}).get("r"), ob.get(v["rid"], {}).get("r")
+        rep.validated()
+        if a != b:
+            rep.violation("C11|derive_vs_cli|%s|%s|%s" % (v["unit"].name, v["type"], v["k"]),
+                          dict(vec_replay(v, {"cli": a, "derive": b})))
+    rep.notes["front_end_units"] = len(fe)
+    rep.notes["front_end_vectors"] = len(vecs)
+    rep.notes["keys"] = len(rows)
+    rep.notes["cli_processes"] = len(work)
+    rep.assumptions += ["digests are over stdout bytes / returned strings; the file name is part of the key",
+                        "the derive macro is compared behaviourally (same vectors, identical observations), not textually"]
+    return rep.finish()
+
+
 CHECKS = {p: (lambda ctx, p=p: check_rust_codec(p, ctx)) for p in CODEC_MODES}
+CHECKS["C11"] = check_c11
 CHECKS["C10"] = check_c10
 CHECKS["C16"] = check_c16
 CHECKS["C07"] = check_c07
